@@ -14,7 +14,8 @@ EPS32 = float(np.finfo(np.float32).eps)
 RULE = ("case = (solvated multi-chain system cut from the seed structures: protein residues of unequal size incl. GLY, optionally a residue "
         "without CA, ligand, ions, waters; 1-3 noisy frames; optional orthorhombic / triclinic cell) x descriptor in {contacts for the 5 "
         "schemes x 'all' / explicit pairs x periodic x soft_min(beta), centre of mass / geometry, Rg (+ weight scaling), gyration tensor, "
-        "principal moments, asphericity, acylindricity, kappa^2, inertia tensor, density (+ masses), RDF with r_range / bin settings, "
+        "principal moments, asphericity, acylindricity, kappa^2, inertia tensor, density (+ masses), RDF with r_range / bin settings, time-dependent "
+        "RDF g(r,t) with self correlation / period / pairs handled 7-100000 at a time, "
         "DRID with atom subsets, dipole moments, Karplus J couplings (HN-HA 3 models, HN-C, HN-CB), directors / nematic order over chains, "
         "residues or explicit groups, isothermal compressibility and static dielectric from the cell-volume / dipole fluctuations}; oracle = float64 closed form from the documentation evaluated on "
         "the same coordinates, masses and cell, with label / index bookkeeping checked against the returned labels; non-trivial = "
@@ -45,7 +46,7 @@ def seed_system():
 
 @st.composite
 def strategy(draw, tier="quick"):
-    what = draw(st.sampled_from(["contacts", "contacts", "contacts", "moments", "rdf", "drid", "dipole", "jcoupling", "density", "nematic", "volume-stats"]))
+    what = draw(st.sampled_from(["contacts", "contacts", "contacts", "moments", "rdf", "rdf_t", "drid", "dipole", "jcoupling", "density", "nematic", "volume-stats"]))
     case = {"what": what, "seed": draw(st.integers(0, 2 ** 31)), "nf": draw(st.integers(1, 3)),
             "nres": draw(st.integers(6, 14)), "start": draw(st.integers(0, 20)), "drop_ca": draw(st.integers(0, 4)) == 0,
             "extras": draw(st.sampled_from(["none", "water", "water+ions+lig"])),
@@ -57,6 +58,10 @@ def strategy(draw, tier="quick"):
     if what == "rdf":
         case.update(rlo=draw(st.sampled_from([0.0, 0.0, 0.1])), rhi=draw(st.sampled_from([1.0, 0.6, 1.45])),
                     bins=draw(st.sampled_from([None, None, 7, 40])), width=draw(st.sampled_from([0.005, 0.05, 0.13])))
+    if what == "rdf_t":
+        case.update(nf=draw(st.integers(2, 5)), rhi=draw(st.sampled_from([1.0, 0.6])), bins=draw(st.sampled_from([5, 20])),
+                    self_corr=draw(st.booleans()), n_conc=draw(st.sampled_from([100000, 7, 10, 64])), npairs=draw(st.integers(3, 40)),
+                    period=draw(st.sampled_from([None, 2])))
     if what == "nematic":
         case.update(groups=draw(st.sampled_from(["chains", "residues", "explicit", "explicit"])))
     if what == "volume-stats":
@@ -89,7 +94,7 @@ def build(case):
     x0 -= x0.min(0) - 0.5
     xyz = np.array([x0 + rng.normal(0, case["noise"] * (1 + f), x0.shape) for f in range(nf)]).astype(np.float32)
     t = md.Trajectory(xyz, sub.topology, time=np.arange(nf) * 1.0)
-    need_cell = case["what"] in ("rdf", "density", "dipole", "volume-stats")
+    need_cell = case["what"] in ("rdf", "rdf_t", "density", "dipole", "volume-stats")
     cell = case["cell"] or ("ortho" if need_cell else None)
     if cell:
         ext = float(xyz.max()) + 1.0
@@ -306,6 +311,46 @@ def run_case(case):
                     k = int(np.argmax((g < lo * (1 - 1e-6) - 1e-12) | (g > hi * (1 + 1e-6) + 1e-12)))
                     viol.append(("rdf/value", "bin %d [%.4f,%.4f): g=%.6g, count/(n_pairs*sum(1/V)*shell) = %.6g" % (k, edges[k], edges[k + 1], g[k], lo[k])))
             nontrivial = rr != (0.0, 1.0) or case["bins"] is not None
+        elif what == "rdf_t":
+            # time-dependent g(r, t): counts of |r_j(t2) - r_i(t1)| per shell over all pairs (plus i == j when self_correlation),
+            # divided by n_pairs / period_length * sum_f 1/V_f * shell volume - whatever the number of pairs handled at a time
+            rng = np.random.Generator(np.random.PCG64(case["seed"] + 6))
+            heavy = [a.index for a in top.atoms if a.element.symbol != "H"][:30]
+            allp = np.array(list(itertools.combinations(heavy, 2)))
+            pairs = allp[rng.choice(len(allp), min(case["npairs"], len(allp)), replace=False)]
+            times = np.array([[int(a), int(b)] for a, b in rng.integers(0, nf, (4, 2))])
+            rr = (0.0, case["rhi"])
+            nb = case["bins"]
+            kw = {} if case["period"] is None else {"period_length": case["period"]}
+            r, g = md.compute_rdf_t(t, pairs, times, r_range=rr, n_bins=nb, self_correlation=case["self_corr"],
+                                    n_concurrent_pairs=case["n_conc"], **kw)
+            full = pairs
+            if case["self_corr"]:
+                u = np.unique(pairs)
+                full = np.vstack([np.stack([u, u], 1), pairs])
+            dist = md.compute_distances_t(t, full, times).astype(np.float64)      # (n_times, n_pairs): bookkeeping, not C05, is under test
+            edges = np.linspace(rr[0], rr[1], nb + 1)
+            vol = np.array([abs(np.linalg.det(gen.box_vectors(t.unitcell_lengths[f], t.unitcell_angles[f]))) for f in range(nf)])
+            shell = 4.0 / 3.0 * math.pi * (edges[1:] ** 3 - edges[:-1] ** 3)
+            period = case["period"] or nf
+            norm = len(full) / period * np.sum(1.0 / vol) * shell
+            if g.shape != (len(times), nb) or not np.allclose(r, 0.5 * (edges[1:] + edges[:-1]), atol=1e-9):
+                viol.append(("rdf_t/shape-or-centres", "g %s, r %s..." % (g.shape, r[:3])))
+            else:
+                for n_ in range(len(times)):
+                    d_ = dist[n_]
+                    near = np.abs(d_[:, None] - edges).min(-1) < 1e-6
+                    cnt = np.histogram(d_[~near], bins=edges)[0].astype(np.float64)
+                    amb = np.array([np.sum(near & (np.abs(d_ - e) < 1e-6)) for e in edges])
+                    lo, hi = cnt / norm, (cnt + amb[:-1] + amb[1:]) / norm
+                    bad = (g[n_] < lo * (1 - 1e-6) - 1e-12) | (g[n_] > hi * (1 + 1e-6) + 1e-12)
+                    if bad.any():
+                        k = int(np.argmax(bad))
+                        viol.append(("rdf_t/value", "time pair %s bin %d: g=%.6g, count/(n_pairs/period*sum(1/V)*shell) = %.6g (%d pairs, %d at a time)" % (
+                            times[n_].tolist(), k, g[n_, k], lo[k], len(full), case["n_conc"])))
+                        break
+            labels.append("rdf_t:chunks=%d" % int(np.ceil(len(full) / case["n_conc"])))
+            nontrivial = len(full) > case["n_conc"] and len(full) % case["n_conc"] != 0
         elif what == "drid":
             if case["subset"] == "all":
                 idx = np.arange(n)
